@@ -15,9 +15,10 @@ def tup(x):
     return x
 
 
-def make_task(sig, conds, weakly, cfgs, qspec, keys=None, via="api", wsig=None, cls=None, scope="", qslice=None, labels=False):
+def make_task(sig, conds, weakly, cfgs, qspec, keys=None, via="api", wsig=None, cls=None, scope="", qslice=None, labels=False,
+              debug_log=False):
     return {
-        "labels": bool(labels),
+        "labels": bool(labels), "debug_log": bool(debug_log),
         "qslice": tuple(qslice) if qslice else None,
         "sig": list(sig), "wsig": list(wsig or sig), "conds": [tup(c) for c in conds], "weakly": bool(weakly),
         "cfgs": list(cfgs), "qspec": tuple(qspec), "keys": list(keys) if keys else None, "via": via, "cls": cls,
@@ -105,7 +106,7 @@ def case_of(task, cfg, qc, vf):
     return {
         "scope": task["scope"], "sig": task["sig"], "wsig": task["wsig"],
         "conds": [forms.ctxt(c) for c in task["conds"]], "conds_f": task["conds"], "keys": task["keys"],
-        "weakly": task["weakly"], "via": task["via"], "config": cfg, "cls": task["cls"], "labels": task.get("labels", False),
+        "weakly": task["weakly"], "via": task["via"], "config": cfg, "cls": task["cls"], "labels": task.get("labels", False), "debug_log": task.get("debug_log", False),
         "query": forms.ctxt(qc), "query_f": qc, "V": vf[0], "F": vf[1],
     }
 
@@ -119,7 +120,11 @@ def run_impl(task, cfgs=None):
     for cfg in (cfgs or task["cfgs"]):
         system, pm = drive.CONFIGS.get(cfg) or (cfg.split("@")[0], cfg.split("@")[1])
         bb = build_bb(task)   # fresh objects per configuration
-        answers[cfg] = drive.ask(bb, system, pm, task["weakly"], qconds)
+        if task.get("debug_log"):
+            with drive.debug_logging():
+                answers[cfg] = drive.ask(bb, system, pm, task["weakly"], qconds)
+        else:
+            answers[cfg] = drive.ask(bb, system, pm, task["weakly"], qconds)
     return rb, qs, answers
 
 
@@ -212,7 +217,7 @@ def replay(rec):
     """Re-execute one recorded (base, configuration, query) without the explorer."""
     c = rec["case"]
     task = make_task(c["sig"], c["conds_f"], c["weakly"], [c["config"]], ("list", [c["query_f"]]), keys=c["keys"],
-                     via=c["via"], wsig=c["wsig"], cls=c.get("cls"), scope=c.get("scope", ""), labels=c.get("labels", False))
+                     via=c["via"], wsig=c["wsig"], cls=c.get("cls"), scope=c.get("scope", ""), labels=c.get("labels", False), debug_log=c.get("debug_log", False))
     rb, qs, answers = run_impl(task)
     got = answers[c["config"]][0]
     system = SYS_OF.get(c["config"], c["config"].split("@")[0])
